@@ -50,6 +50,7 @@ type ListSource struct {
 	Reader string           `json:"reader,omitempty"`
 	Data   []byte           `json:"data,omitempty"`
 	Spec   *corpus.ListSpec `json:"spec,omitempty"`
+	Many   int              `json:"many,omitempty"` // corpus.ManyCues(Many): a plain list of that many cues
 	// Ops: in-memory transformations applied after the list was read / built (the list a writer gets is often
 	// the result of a pipeline: Fragment leaves items that share their Lines, Merge items of two documents, ...)
 	Ops []api.Op `json:"ops,omitempty"`
@@ -58,7 +59,9 @@ type ListSource struct {
 // Build materialises the list (nil when the source document does not parse or a transformation panics).
 func (ls ListSource) Build() *astisub.Subtitles {
 	var s *astisub.Subtitles
-	if ls.Spec != nil {
+	if ls.Many > 0 {
+		s = corpus.ManyCues(ls.Many).Build()
+	} else if ls.Spec != nil {
 		s = ls.Spec.Build()
 	} else {
 		var err error
@@ -88,6 +91,9 @@ func (ls ListSource) Name() string {
 	if ls.Spec != nil {
 		n = ls.Spec.Name
 	}
+	if ls.Many > 0 {
+		n = "many-" + fmt.Sprint(ls.Many)
+	}
 	for _, op := range ls.Ops {
 		n += "|" + op.Name
 	}
@@ -103,18 +109,21 @@ type c18Limits struct {
 	wExhaustive int
 	wSampled    int
 	longLens    []int
+	manySizes   []int // plain lists of that many cues (size thresholds inside writers)
 }
 
 func c18LimitsFor(tier string) c18Limits {
 	if tier == "thorough" {
 		return c18Limits{exhaustive: 12000, sampled: 2000, allCombos: true, genPerFmt: 14, lists: 150, wExhaustive: 20000, wSampled: 2000,
-			longLens: []int{65535, 65536, 65537, 1 << 17, 1 << 18, 1 << 20}}
+			longLens:  []int{65535, 65536, 65537, 1 << 17, 1 << 18, 1 << 20},
+			manySizes: []int{63, 64, 65, 127, 128, 129, 255, 256, 257, 511, 512, 513, 1000, 1023, 1024, 1025, 2047, 2048, 2049, 4095, 4096, 4097, 4103, 8191, 8192, 8193, 9999, 10000, 10001, 16383, 16384, 16385, 32767, 32768, 32769, 65535, 65536, 65537, 99999, 100000, 100001, 131071, 131073, 250007}}
 	}
 	if tier == "smoke" { // determinism self-test only
-		return c18Limits{exhaustive: 1200, sampled: 40, genPerFmt: 1, lists: 4, wExhaustive: 1500, wSampled: 40, longLens: []int{65536}}
+		return c18Limits{exhaustive: 1200, sampled: 40, genPerFmt: 1, lists: 4, wExhaustive: 1500, wSampled: 40, longLens: []int{65536}, manySizes: []int{257, 1025}}
 	}
 	return c18Limits{exhaustive: 6000, sampled: 400, allCombos: false, genPerFmt: 5, lists: 30, wExhaustive: 6000, wSampled: 300,
-		longLens: []int{65535, 65536, 65537, 1 << 17, 1 << 20}}
+		longLens:  []int{65535, 65536, 65537, 1 << 17, 1 << 20},
+		manySizes: []int{127, 128, 129, 255, 256, 257, 511, 512, 513, 1023, 1024, 1025, 2049, 4095, 4096, 4097, 4103, 8193, 10001, 16385, 32769, 65535, 65536, 65537, 99999, 100000, 100001}}
 }
 
 type faultCombo struct {
@@ -1010,6 +1019,74 @@ func RunC18(cfg Config) (*ShardResult, error) {
 						if addV(checkC18Write(sc)) {
 							return res, nil
 						}
+					}
+				}
+			}
+		}
+	}
+	// ---------- C2. size thresholds inside writers: plain lists of n cues around powers of two and powers of ten.
+	// Fault-free completeness through both kinds of sink, and a few fault placements (first byte, middle, last byte,
+	// seeded) for the sizes that are cheap to write repeatedly. Only the pair's owner writes (a 100 000-cue TTML
+	// document takes a second).
+	for _, n := range lim.manySizes {
+		src := ListSource{Many: n}
+		for _, writer := range api.WriterFormats {
+			if !cfg.Mine(Key64("many", fmt.Sprint(n), writer)) {
+				continue
+			}
+			cls0, _, w0, cues, tail := evalWriteTail(src, writer, simio.WritePlan{})
+			if cls0 != "ok" {
+				res.Extra["write_pairs_failing_without_fault"]++
+				continue
+			}
+			res.Evaluations += 2
+			res.Probes["many_cues_completeness"]++
+			if seen.add(Key64("many", fmt.Sprint(n), writer)) {
+				res.Distinct++
+			}
+			if why := completeSink(writer, w0.Buf, cues, tail); why != "" {
+				if addV(checkC18Write(C18Scenario{Kind: "complete", Source: &src, Writer: writer})) {
+					return res, nil
+				}
+			}
+			if cr, _, wr, cuesR, tailR := evalWriteTail(src, writer, simio.WritePlan{Medium: "rich"}); cr == "ok" {
+				why := completeSink(writer, wr.Buf, cuesR, tailR)
+				if why == "" && !bytes.Equal(stlMaskDates(writer, wr.Buf), stlMaskDates(writer, w0.Buf)) {
+					why = "the bytes handed to a sink offering io.StringWriter/io.ReaderFrom differ from those handed to a plain io.Writer"
+				}
+				if why != "" {
+					b, _ := json.Marshal(C18Scenario{Kind: "complete", Source: &src, Writer: writer, WMedium: "rich"})
+					if addV(&Violation{Property: "C18", Class: "incomplete-output", Signature: fmt.Sprintf("C18 complete %s fault=none incomplete-output", writer),
+						Detail: fmt.Sprintf("list=%s writer=%s sink=rich: writer returned nil but %s", src.Name(), writer, why), Scenario: b}) {
+						return res, nil
+					}
+				}
+			}
+			if n > 10001 {
+				continue
+			}
+			m := len(w0.Buf)
+			sr := root.Derive("c18many-"+writer, n)
+			for fi, k := range []int{0, 1, m / 2, m - 4097, m - 4096, m - 2, m - 1, sr.Intn(m), sr.Intn(m)} {
+				if k < 0 {
+					continue
+				}
+				f := simio.WriteFault{Offset: k, Kind: simio.WriteFaultKinds[fi%len(simio.WriteFaultKinds)], Short: fi%2 == 0}
+				medium := ""
+				if fi%3 == 2 {
+					medium = "rich"
+				}
+				cls, _, w, _ := evalWrite(src, writer, simio.WritePlan{Fault: &f, Medium: medium})
+				res.Evaluations++
+				res.SimEvents += int64(w.Writes)
+				res.Note("wm", fmt.Sprint(n), writer, fmt.Sprint(f), medium, cls, fmt.Sprint(w.Writes, w.FaultFired(), len(w.Buf)))
+				if w.FaultFired() {
+					res.Faults["write:"+f.Kind]++
+					res.Probes["many_cues_write_fault"]++
+				}
+				if cls == "panic" || (cls == "ok" && w.FaultFired()) {
+					if addV(checkC18Write(C18Scenario{Kind: "write", Source: &src, Writer: writer, WFault: &f, WMedium: medium})) {
+						return res, nil
 					}
 				}
 			}
